@@ -10,7 +10,8 @@
     [self._compute_numeric_partials(acc, m, point)] = [rev] (TieOrch), [self._compute_synthetic_partials
     (acc, m)] = [synth_rev] (TieSymRev), [acc.*_partials_for(names)] = [*_partials_for] (TieAcc),
     [self._fully_reduce()] and [t._normalize_fully_reduced()] = two functions [fr], [nf] (TieStep,
-    TieNorm), [self._reset_evaluation_cache()] = no effect on the pure result (C09, TieCacheBody). *)
+    TieNorm), [self._reset_evaluation_cache()] = no effect on the pure result (C09, TieCacheBody) —
+    but the numeric sweep is given its pure meaning only AFTER a reset: without one the body is stuck. *)
 From Coq Require Import ZArith List Bool String Ascii.
 From SM Require Import Num Syntax Outcome Eval Reverse Synth.
 Import ListNotations.
@@ -86,14 +87,16 @@ Section Interp.
     match nev_simple r recv with
     | Some (NVE self) =>
         if String.eqb m "_reset_evaluation_cache" then
-          match args with [] => Val (r, NVNone) | _ => stuck end
+          match args with [] => Val (nset "#reset" NVNone r, NVNone) | _ => stuck end
         else if String.eqb m "_compute_numeric_partials" then
           match args with
           | [NName a; mult; pt] =>
-              match nlook a r, nev_simple r mult, nev_simple r pt with
-              | Some (NVAccN acc), Some (NVZ z), Some NVPoint =>
+              (* the numeric sweep READS the memo fields: it must come after a reset ("#reset" is set by
+                 _reset_evaluation_cache and by nothing else), or the pure [rev] is not what it computes *)
+              match nlook "#reset" r, nlook a r, nev_simple r mult, nev_simple r pt with
+              | Some _, Some (NVAccN acc), Some (NVZ z), Some NVPoint =>
                   acc' <- rev N p self (nofZ N z) acc ;; Val (nset a (NVAccN acc') r, NVNone)
-              | _, _, _ => stuck
+              | _, _, _, _ => stuck
               end
           | _ => stuck
           end
